@@ -549,3 +549,16 @@ theorem nonvacuous_heap_merge_append :
 end heap
 
 end Ytk.C04
+
+/-! ## gap7a: self-merge is the identity under meld ONLY -/
+namespace Ytk.C04
+
+/-- `A.Merge(A) == A` is claimed (and proved: `merge_self_meld`) for the position-wise strategy; with
+    `ListsMergeAppend` it fails as soon as A has a non-empty list: the list is doubled. -/
+theorem merge_self_append_counterexample :
+    (Node.cont [("l", .list [i 1])]).WF ∧
+    mergeC .append [("l", .list [i 1])] [("l", .list [i 1])] = [("l", .list [i 1, i 1])] ∧
+    mergeC .meld [("l", .list [i 1])] [("l", .list [i 1])] = [("l", .list [i 1])] :=
+  ⟨wf_of_wfb _ (by decide), by decide, by decide⟩
+
+end Ytk.C04
